@@ -26,7 +26,9 @@ RULE = ("SVC: every schedule (tuple of 1+epochs permutations) enumerated by TLC 
         "duplicated rows of both classes, C in 1/8..100, epochs 1..4, tol 2^-7..2^-13, 4 kernels) with injected "
         "random schedules and every 25th fit left to the unseeded RNG.  SVR: seeded random regression sets "
         "(n 4..30 / 4..60, eps in {0, 0.1, 1/8, 1/4, 1/2}); a size ladder (training sets of 65..257 rows with most rows support vectors; ONE decision_function / predict "
-        "call on 63..1025 and 3000 query rows compared with the same rows evaluated in blocks); every 5th fit goes "
+        "call on 63..1025 and 3000 query rows compared with the same rows evaluated in blocks); every 9th random SVC fit uses a label pair with "
+        "a special arithmetic shape (same integer part, straddling zero inside (-1,1), closer than machine epsilon, "
+        "adjacent floats, huge, subnormal, -0.0); every 5th fit goes "
         "through the api traits (SupervisedEstimator::fit, Predictor::predict); every 6th SVR fit has its targets confined to a band that "
         "is narrow relative to eps (constant, range <= eps, eps < range <= 2 eps skewed with 1-2 outliers at one "
         "end, exactly 2 eps, 2 eps + one step, eps = 0), for all kernels.  Kernels: exhaustive pairs over {-2..2}^2 for 15 kernel "
@@ -70,6 +72,8 @@ def key_of(e, clause):
             feats.append("n>=91")
         if i.get("api"):
             feats.append("api traits")
+        if i.get("lab", "int") != "int":
+            feats.append("labels=%s" % i["lab"])
         if e.get("status") != "ok":
             feats.append("status=%s" % e.get("status"))
         if kn == "poly" and k.get("dd", 1) != 1:
@@ -133,6 +137,8 @@ MUST_HIT = ("SvcFit", "SvcSched", "SvcRand", "SvcUnseeded", "Svc_linear", "Svc_r
             "KRoot2", "KRoot4", "KRootUndefined", "FitRootClosed",
             "SvrNarrowBand", "SvrBandSkewed", "SvrConstantTargets", "SvrNoSv", "SvrNoSvKKT",
             "SvcApi", "SvrApi", "SvcLarge", "SvrLargeDense",
+            "SvcFloatLabels", "SvcLab_unit", "SvcLab_zero", "SvcLab_eps", "SvcLab_adjacent", "SvcLab_huge",
+            "SvcLab_tiny", "SvcLab_negzero",
             "SvcBatch", "SvcBatchOver256", "SvcBatchOver1024", "SvrBatch", "SvrBatchOver256", "SvrBatchOver1024",
             "Gram_linear", "Gram_rbf", "Gram_sigmoid", "RbfFunctional", "SigAddition", "GramSingular")
 
